@@ -265,6 +265,35 @@ def generate(tier):
                                 if c:
                                     cases.append(c)
     cases += zoo(tier)
+    # conversions: a field type whose inherent `into` answers differently from its Into impl; generic fields that are convertible for one target only
+    for kind, decl, mk in (('sn', 'pub struct Ty { {M}pub a: Inh, pub b: bool }', 'Ty { a: inh(%d), b: true }'), ('st', 'pub struct Ty({M}pub Inh, pub bool);', 'Ty(inh(%d), true)'),
+                           ('en', 'pub enum Ty { A({M}Inh, bool), B { x: bool, {M}y: Inh }, C(Inh) }', None)):
+        for marked in (False, True):
+            for tgts in (('u8',), ('u16', 'u8')):
+                m = '#[educe(%s)] ' % ', '.join('Into(%s)' % t for t in tgts) if marked else ''
+                if not marked and kind != 'en':
+                    m = '#[educe(%s)] ' % ', '.join('Into(%s)' % t for t in tgts)     # several fields: a designation is required
+                src = '#[derive(Educe)]\n#[educe(%s)]\n%s\n' % (', '.join('Into(%s)' % t for t in tgts), decl.replace('{M}', m if (marked or kind != 'en') else '#[educe(%s)] ' % ', '.join('Into(%s)' % t for t in tgts)))
+                vals = [mk % 5] if mk else ['Ty::A(inh(5), true)', 'Ty::B { x: false, y: inh(5) }', 'Ty::C(inh(5))']
+                body = ''
+                for v_ in vals:
+                    for t in tgts:
+                        body += '    { let y: %s = (%s).into(); r.ck(y == 5, 0, &|| format!("into::<%s>() gave {}, the Into impl of the field gives 5", y)); }\n' % (t, v_, t)
+                src += 'pub fn check(r: &mut Rep) {\n%s}\n' % body
+                cases.append(Case('C10|inherent-into|%s|%s|%s' % (kind, 'marked' if marked else 'plain', '+'.join(tgts)), src, {'field_type': 'Inh (inherent into() = 200)'}, expect='accept', run=True, depth=2))
+    for kind, decl, mk in (('sn', 'pub struct Ty<T, U> { #[educe(Into(u8))] pub a: T, #[educe(Into(u16))] pub b: U }', 'Ty { a: %s, b: %s }'),
+                           ('st', 'pub struct Ty<T, U>(#[educe(Into(u8))] pub T, #[educe(Into(u16))] pub U);', 'Ty(%s, %s)'),
+                           ('en', 'pub enum Ty<T, U> { A(#[educe(Into(u8))] T, #[educe(Into(u16))] U), B { #[educe(Into(u16))] x: U, #[educe(Into(u8))] y: T } }', 'Ty::A(%s, %s)')):
+        for order in (('u8', 'u16'), ('u16', 'u8')):
+            src = '#[derive(Educe)]\n#[educe(%s)]\n%s\n' % (', '.join('Into(%s)' % t for t in order), decl)
+            src += ('pub fn check(r: &mut Rep) {\n'
+                    '    r.ck(probe!(Ty<Inh, No>: Into<u8>), 0, &|| "Into<u8> needs only the field designated for u8 to be convertible".to_string());\n'
+                    '    r.ck(probe!(Ty<No, Inh>: Into<u16>), 1, &|| "Into<u16> needs only the field designated for u16 to be convertible".to_string());\n'
+                    '    r.ck(!probe!(Ty<Inh, No>: Into<u16>), 2, &|| "Into<u16> applies although its field is not convertible".to_string());\n'
+                    '    r.ck(!probe!(Ty<No, Inh>: Into<u8>), 3, &|| "Into<u8> applies although its field is not convertible".to_string());\n'
+                    '    { let y: u8 = (%s).into(); r.ck(y == 5, 4, &|| format!("into::<u8>() gave {}", y)); }\n'
+                    '    { let y: u16 = (%s).into(); r.ck(y == 6, 5, &|| format!("into::<u16>() gave {}", y)); }\n}\n') % (mk % ('inh(5)', 'No'), mk % ('No', 'inh(6)'))
+            cases.append(Case('C10|generic-per-target|%s|%s' % (kind, '+'.join(order)), src, {'generics': 'T for u8, U for u16'}, expect='accept', run=True, depth=2))
     # field names that differ by the prefixes the templates use for their bindings (x, _x, __x, ...), and raw identifiers
     from .common import underscorify, rawify
     named = [x for x in cases if ':n' in x.key or '|n' in x.key]
@@ -273,6 +302,8 @@ def generate(tier):
             r_ = tr(c)
             if r_:
                 cases.append(r_)
+    from .common import decoy_layer
+    cases += decoy_layer([c for c in cases if c is not None])
     seen, out = set(), []
     for c in cases:
         if c.key not in seen:
